@@ -167,6 +167,18 @@ SortF(s) == IF s = <<>> THEN <<>> ELSE InsertSorted(SortF(Tail(s)), Head(s))
 
 Range(s) == {s[i] : i \in DOMAIN s}
 
+(* Equality as the code does it (PartialEq, what Vec::dedup / contains /   *)
+(* position use) and Vec::dedup = drop every element equal to its          *)
+(* predecessor.  Binary search is asked on lists sorted by the numeric     *)
+(* order only (its contract).                                              *)
+EqF(a, b) == PartialCmpF(a, b) = 0
+RECURSIVE DedupF(_)
+DedupF(s) == IF Len(s) <= 1 THEN s
+             ELSE IF EqF(s[1], s[2]) THEN DedupF(Tail(s))       \* equal values: same code, either one
+             ELSE <<s[1]>> \o DedupF(Tail(s))
+IsSorted(s) == \A i \in 1..(Len(s) - 1) : s[i] <= s[i + 1]
+MinOf(S) == CHOOSE x \in S : \A y \in S : x <= y
+
 ---------------------------------------------------------------------------
 (* MultiObjective: TryFrom and PartialOrd::partial_cmp transcribed from    *)
 (* multi.rs (equality first, then length, then the has_better / has_worse  *)
@@ -242,6 +254,23 @@ ListMax(xs) ==
     /\ res' = (IF xs = <<>> THEN R("none", NoVal) ELSE R("val", SortF(xs)[Len(xs)]))
     /\ UNCHANGED vals
 
+\* Vec::dedup on the list as given (f = "raw") or after Vec::sort (f = "sorted")
+Dedup(f, xs) == /\ res' = RS("list", IF f = "sorted" THEN DedupF(SortF(xs)) ELSE DedupF(xs))
+                /\ UNCHANGED vals
+\* slice::contains / Iterator::position(|o| *o == a): PartialEq
+Contains(xs, a) == res' = R("bool", Bool(\E i \in DOMAIN xs : EqF(xs[i], a))) /\ UNCHANGED vals
+Position(xs, a) ==
+    /\ res' = (LET H == {i \in DOMAIN xs : EqF(xs[i], a)} IN
+               IF H = {} THEN R("none", NoVal) ELSE R("idx", MinOf(H)))
+    /\ UNCHANGED vals
+\* slice::binary_search (Ord) on a sorted list: the element found (which of several equal ones
+\* is unspecified, its value is not), or the insertion point
+BSearch(xs, a) ==
+    /\ IsSorted(xs)
+    /\ res' = (IF \E i \in DOMAIN xs : CmpF(xs[i], a) = 0 THEN R("found", a)
+               ELSE R("insert", Cardinality({i \in DOMAIN xs : CmpF(xs[i], a) = -1})))
+    /\ UNCHANGED vals
+
 MTryFrom(xs) ==   \* TryFrom<Vec<f64>> / TryFrom<&[f64]>; on success value() is read back
     /\ res' = (IF VecErr(xs) = "ok" THEN RS("ok", xs) ELSE RS(VecErr(xs), <<>>))
     /\ UNCHANGED vals
@@ -275,6 +304,10 @@ Do(a) ==
          [] a.op = "sort"      -> Range(a.xs) \subseteq vals /\ Sort(a.xs)
          [] a.op = "list_min"  -> Range(a.xs) \subseteq vals /\ ListMin(a.xs)
          [] a.op = "list_max"  -> Range(a.xs) \subseteq vals /\ ListMax(a.xs)
+         [] a.op = "dedup"     -> Range(a.xs) \subseteq vals /\ a.f \in {"raw", "sorted"} /\ Dedup(a.f, a.xs)
+         [] a.op = "contains"  -> Range(a.xs) \subseteq vals /\ a.a \in vals /\ Contains(a.xs, a.a)
+         [] a.op = "position"  -> Range(a.xs) \subseteq vals /\ a.a \in vals /\ Position(a.xs, a.a)
+         [] a.op = "bsearch"   -> Range(a.xs) \subseteq vals /\ a.a \in vals /\ BSearch(a.xs, a.a)
          [] a.op = "m_try_from"  -> MTryFrom(a.xs)
          [] a.op = "m_cmp"       -> LegalVec(a.xs) /\ LegalVec(a.ys) /\ MCmp(a.f, a.xs, a.ys)
          [] a.op = "m_is_finite" -> LegalVec(a.xs) /\ MIsFinite(a.xs)
@@ -311,6 +344,12 @@ Acts ==
     \cup {A("value", f, a, NoVal, NoC, NoC, E, E) : f \in {"value", "into_f64"}, a \in vals}
     \cup {A(op, "-", NoVal, NoVal, NoC, NoC, xs, E) :
               op \in {"sort", "list_min", "list_max"}, xs \in SeqsUpTo(vals, MaxList)}
+    \cup {A("dedup", f, NoVal, NoVal, NoC, NoC, xs, E) :
+              f \in {"raw", "sorted"}, xs \in SeqsUpTo(vals, MaxList)}
+    \cup {A(op, "-", a, NoVal, NoC, NoC, xs, E) :
+              op \in {"contains", "position"}, a \in vals, xs \in SeqsUpTo(vals, MaxList)}
+    \cup {A("bsearch", "-", a, NoVal, NoC, NoC, xs, E) :
+              a \in vals, xs \in {s \in SeqsUpTo(vals, MaxList) : IsSorted(s)}}
 
 VecIn  == SeqsUpTo(VecDom \cup {NAN, NEGINF}, MaxVec)
 Vecs   == SeqsUpTo(VecDom, MaxVec)
@@ -338,7 +377,7 @@ Spec == Init /\ [][Next]_vars
 
 TypeOK == /\ vals \subseteq (Int \ {NoVal})
           /\ res.k \in {"ok", "err_nan", "err_neginf", "val", "illegal", "ord", "bool", "panic",
-                        "list", "none"}
+                        "list", "none", "idx", "found", "insert"}
 
 \* Objective values obtainable through the public API are never NaN or -inf.
 Legal == vals \cap {NAN, NEGINF} = {}
@@ -398,6 +437,38 @@ SortMinMaxSound ==
               ELSE res'.v \in Range(act'.xs) /\ \A v \in Range(act'.xs) : res'.v >= v
         /\ act'.op = "min" => res'.v \in {act'.a, act'.b} /\ res'.v <= act'.a /\ res'.v <= act'.b
         /\ act'.op = "max" => res'.v \in {act'.a, act'.b} /\ res'.v >= act'.a /\ res'.v >= act'.b
+      ]_vars
+
+\* equality IS equality of the numeric values, consistently in everything built on it:
+\* the comparison forms among themselves (== iff cmp = Equal iff neither < nor >), Vec::dedup
+\* (after sorting: strictly increasing, same set of values -- no distinct value is dropped, no
+\* duplicate survives; as given: exactly the elements that differ from their predecessor),
+\* contains / position (first index holding that very value), binary search (found iff present,
+\* else the number of smaller elements)
+StrictlyIncreasing(s) == \A i \in 1..(Len(s) - 1) : s[i] < s[i + 1]
+EqualityExact ==
+    [][ /\ act'.op \in {"dedup", "contains", "position", "bsearch"} => res'.k # "panic"
+        /\ act'.op = "dedup" /\ act'.f = "sorted" =>
+              /\ res'.k = "list"
+              /\ StrictlyIncreasing(res'.s)
+              /\ Range(res'.s) = Range(act'.xs)
+        /\ act'.op = "dedup" /\ act'.f = "raw" =>
+              LET xs == act'.xs
+                  keep == {i \in DOMAIN xs : i = 1 \/ xs[i] # xs[i - 1]} IN
+              /\ res'.k = "list"
+              /\ Len(res'.s) = Cardinality(keep)
+              /\ \A i \in keep : res'.s[Cardinality({j \in keep : j <= i})] = xs[i]
+        /\ act'.op = "contains" => res'.k = "bool" /\ res'.v = Bool(act'.a \in Range(act'.xs))
+        /\ act'.op = "position" =>
+              IF act'.a \in Range(act'.xs)
+              THEN /\ res'.k = "idx" /\ res'.v \in DOMAIN act'.xs
+                   /\ act'.xs[res'.v] = act'.a
+                   /\ \A j \in 1..(res'.v - 1) : act'.xs[j] # act'.a
+              ELSE res'.k = "none"
+        /\ act'.op = "bsearch" =>
+              IF act'.a \in Range(act'.xs) THEN res'.k = "found" /\ res'.v = act'.a
+              ELSE /\ res'.k = "insert"
+                   /\ res'.v = Cardinality({i \in DOMAIN act'.xs : act'.xs[i] < act'.a})
       ]_vars
 
 \* multi-objective comparison IS Pareto dominance (minimisation)
